@@ -70,6 +70,11 @@ class C19(Oracle):
                            and nxt.vehicles.get(vid) is not None and act(nxt.vehicles[vid]) == "OutOfService"]
                     facts["pickup"].append((rid, who[0] if len(who) == 1 else "?"))
                     ctx.run.probes["pickup_then_out_of_energy_same_step"] += 1
+        for rid, vid in facts["pickup"]:
+            if rid not in prev.requests:
+                ctx.run.probes["same_step_pickup"] += 1
+        if facts["pickup"] and (ctx.T // 86400) != (int(ctx.nxt.sim_time) // 86400) or (facts["pickup"] and ctx.T % 86400 < 1800 and ctx.k > 0):
+            ctx.run.probes["pickup_near_midnight"] += 1
         self.seen.append(facts)
         self.pickups += len(facts["pickup"])
         return ()
